@@ -1428,7 +1428,7 @@ class Check(PropertyCheck):
         'the structures of REDUCED operators (reduce_structs: Props/C01Structs.v, compiled by the C01 check) and of '
         'INVERSES (inverse_structs: Props/C06Structs.v, compiled by the C06 check) are proved there for all expression '
         'trees under wfo and prims_ok; here they are additionally compared on the real objects (kinds reduce, reduce-rule, '
-        'block-reduce-*, block-product, I, II, I-blockdiag). Not proved: The closed-form leaves of Model/Exec.v without a measured matrix '
+        'block-reduce-*, block-product, I, II, I-blockdiag, and pat:* - every documented pattern and its near misses). Not proved: The closed-form leaves of Model/Exec.v without a measured matrix '
         '(rotation, HWP, polariser, 1-d diagonal created by reduce) are not discharged for the value-level leaf fact '
         '(their dtype/shape rules ARE discharged for the abstract evaluation: declared_is_evaluated).'
     )
